@@ -115,7 +115,7 @@ def gen_cases(ctx):
             chunk = degs[i:i + 6]
             yield finish_case(r, {"kind": "planar", "plane": plane, "deg": chunk,
                                   "poses": [planar_pose(plane, d, *tvec(r)[:2]) for d in chunk]})
-    n = 120 if not ctx.thorough else 8000
+    n = 400 if not ctx.thorough else 8000
     for _ in range(n):
         plane = r.choice(list(NULL))
         m = r.randint(1, 4)
@@ -124,13 +124,13 @@ def gen_cases(ctx):
                           -180.0 + 10.0 ** r.uniform(-13, -1), 10.0 ** r.uniform(-14, -2) * r.choice([1, -1])]) for _ in range(m)]
         yield finish_case(r, {"kind": "planar", "plane": plane, "deg": degs,
                               "poses": [planar_pose(plane, d, *tvec(r)[:2]) for d in degs]})
-    n = 150 if not ctx.thorough else 8000
+    n = 400 if not ctx.thorough else 8000
     for _ in range(n):
         plane = r.choice(list(NULL))
         m = r.randint(1, 4)
         yield finish_case(r, {"kind": "general", "plane": plane, "deg": None,
                               "poses": [pose(quat_rot(r), tvec(r)) for _ in range(m)]})
-    n = 120 if not ctx.thorough else 8000
+    n = 400 if not ctx.thorough else 8000
     for _ in range(n):
         plane = r.choice(list(NULL))
         m = r.randint(1, 3)
